@@ -7,11 +7,12 @@ import SA.Driver.OpsC01
 import SA.Driver.OpsC02
 import SA.Driver.OpsC04
 import SA.Driver.OpsC13
+import SA.Driver.OpsC19
 
 open SA SA.Wire
 
 def allOps : List (String × (Args → Except String String)) :=
-  SA.Ops.opsC01 ++ SA.Ops.opsC02 ++ SA.Ops.opsC04 ++ SA.Ops.opsC13
+  SA.Ops.opsC01 ++ SA.Ops.opsC02 ++ SA.Ops.opsC04 ++ SA.Ops.opsC13 ++ SA.Ops.opsC19
 
 def step (line : String) : String :=
   let (op, args) := parseLine line
